@@ -4,3 +4,4 @@ import Driver.Kcp
 import Driver.Sess
 import Driver.Wait
 import Driver.Wire
+import Driver.Sched
